@@ -11,6 +11,8 @@ pub struct ErrInfo {
     pub col: Option<usize>,
     pub msg: String,
     pub raw: String,
+    /// character range inside the listed line (Error::column())
+    pub range: (usize, usize),
 }
 
 pub fn parse_error(raw: &str) -> ErrInfo {
@@ -41,6 +43,7 @@ pub fn parse_error(raw: &str) -> ErrInfo {
         col,
         msg,
         raw: raw.to_string(),
+        range: (0, 0),
     }
 }
 
@@ -125,6 +128,8 @@ impl Session {
                 let mut info = parse_error(&e.to_string());
                 // take the structured values where the API offers them
                 info.line = e.line_number().map(|n| n as u32);
+                let c = e.column();
+                info.range = (c.start, c.end);
                 info
             })
             .collect();
